@@ -235,6 +235,29 @@ def reverse_curvature_probes(mon: Monitor) -> None:
             mon.obs["reverse_curvature_probes"] += 1
 
 
+def antimeridian_edge_probes(mon: Monitor) -> None:
+    """Geographic rasters with an edge exactly on +180 / -180 (global mosaics, the last web-mercator tile column): nothing wraps, the rasters just end there."""
+    from affine import Affine
+    from odc.geo.geobox import GeoBox
+    from odc.geo.overlap import compute_reproject_roi
+
+    MM = 20037508.342789244
+    glob = lambda r: GeoBox((int(round(180 / r)), int(round(360 / r))), Affine(r, 0, -180, 0, -r, 90), "EPSG:4326")
+
+    def web(z, tx, ty, n=256):
+        span = 2 * MM / 2**z
+        return GeoBox((n, n), Affine(span / n, 0, -MM + tx * span, 0, -span / n, MM - ty * span), "EPSG:3857")
+
+    P = [(glob(0.25), web(2, 3, 1)), (glob(0.25), web(3, 7, 3)), (glob(0.5), web(2, 0, 2)), (glob(0.25), web(3, 0, 4)),
+         (GeoBox((500, 500), Affine(4000, 0, MM - 2_000_000, 0, -4000, -1_000_000), "EPSG:3857"), GeoBox((240, 160), Affine(0.0625, 0, 170, 0, -0.0625, -10), "EPSG:4326")),
+         (GeoBox((500, 500), Affine(4000, 0, -MM, 0, -4000, 3_000_000), "EPSG:3857"), GeoBox((240, 160), Affine(0.0625, 0, -180, 0, -0.0625, 25), "EPSG:4326")),
+         (web(2, 3, 1, 400), GeoBox((200, 360), Affine(0.25, 0, 90, 0, -0.25, 70), "EPSG:4326"))]
+    for src, dst in P:
+        for kw in ({}, {"align": 8}):
+            call(compute_reproject_roi, src, dst, **kw)
+            mon.obs["antimeridian_edge_probes"] += 1
+
+
 def run(mon: Monitor, tier: str, seed: int, shard: int, nshards: int) -> None:
     install(mon)
     try:
@@ -243,6 +266,7 @@ def run(mon: Monitor, tier: str, seed: int, shard: int, nshards: int) -> None:
         if shard == 0:
             curvature_probes(mon)
             reverse_curvature_probes(mon)
+            antimeridian_edge_probes(mon)
         drive(mon, rng, 3500 if q else 60000, 500 if q else 8000)
         mon.notes["indirect"] = "compute_reproject_roi has no caller inside odc-geo at this commit (it is public API for loaders); only direct calls are observed"
         for pt, n in [("compute_reproject_roi", 2500), ("compute_reproject_roi|same-crs|contained", 100), ("compute_reproject_roi|same-crs|partial", 300), ("compute_reproject_roi|same-crs|disjoint", 100),
